@@ -13,5 +13,5 @@ timeout 3000 make -k -j16 > ../.work/setup_make.log 2>&1 || { tail -30 ../.work/
 cd ..
 mv -f coq/pan.ml coq/pan.mli engine/ 2>/dev/null || true
 cd engine
-ocamlfind ocamlopt -w -a -package zarith -linkpkg pan.mli pan.ml driver.ml -o pan_engine
+ocamlfind ocamlopt -w -a -package zarith -linkpkg pan.mli pan.ml driver.ml -o pan_engine.new && mv -f pan_engine.new pan_engine
 echo "setup done"
